@@ -15,12 +15,15 @@
 #include "families.h"
 #include "simtcp.h"
 #include "f_slot.h"
+#include "connrunner.h"
+#include <memory>
+#include <vector>
 using namespace QHttpEngine;
 
 void runConnectionOn(Server *server, Val &log, const Val &ops);
 void runConnectionOnEach(Server *server, Val &log, const Val &ops, const std::function<void()> &afterOp);
 
-static Val runSlot(const Val &c, bool multi)
+static Val runSlot(const Val &c, bool multi, const Val *schedule = nullptr)
 {
     Val log = Val::List();
     QObject scope;
@@ -65,6 +68,23 @@ static Val runSlot(const Val &c, bool multi)
     Val out = Val::List();
     if (!multi && rereg) runConnectionOnEach(server, log, c.at(1), registerAll);
     else if (!multi) runConnectionOn(server, log, c.at(1));
+    else if (schedule) {
+        // several connections simultaneously open, their operations interleaved by the schedule (connection indices); the slot's
+        // notes go to the log of the connection whose socket it was handed
+        size_t n = c.at(1).l.size();
+        std::vector<Val> logs(n, Val::List());
+        std::vector<std::unique_ptr<ConnRunner>> rs;
+        std::vector<size_t> cursor(n, 0);
+        for (size_t i = 0; i < n; ++i) rs.emplace_back(new ConnRunner(server, &logs[i]));
+        recv.route = [&](Socket *s) -> Val * { for (size_t i = 0; i < n; ++i) if (rs[i]->sock && rs[i]->sock.data() == s) return &logs[i]; return nullptr; };
+        auto act = [&](size_t i) { if (cursor[i] < c.at(1).l[i].l.size()) rs[i]->step(c.at(1).l[i].l[cursor[i]++]); };
+        for (auto &iv : schedule->l) { qint64 i = iv.asInt(); if (i < 0 || size_t(i) >= n) throw std::runtime_error("badcase"); act(size_t(i)); }
+        for (size_t i = 0; i < n; ++i) while (cursor[i] < c.at(1).l[i].l.size()) act(i);
+        for (auto &r : rs) r->finish();
+        recv.route = nullptr;
+        for (size_t i = 0; i < n; ++i) out.add(logs[i]);
+        for (auto &e : log.l) out.add(e);           // notes that belong to no connection (a slot handed a foreign socket)
+    }
     else for (auto &ops : c.at(1).l) {           // several connections, one after the other, through the one handler
         log = Val::List();
         runConnectionOn(server, log, ops);
@@ -76,5 +96,7 @@ static Val runSlot(const Val &c, bool multi)
 }
 static Val run_slot(const Val &c) { return runSlot(c, false); }
 static Val run_slotm(const Val &c) { return runSlot(c, true); }
+// family "sloti": ( schedule ( regs (ops..) oracle (meta..) ) ) - the connections of a slotm case, simultaneously open
+static Val run_sloti(const Val &c) { return runSlot(c.at(1), true, &c.at(0)); }
 
-void reg_slot() { registerFamily("slot", run_slot); registerFamily("slotm", run_slotm); }
+void reg_slot() { registerFamily("slot", run_slot); registerFamily("slotm", run_slotm); registerFamily("sloti", run_sloti); }
